@@ -1528,3 +1528,109 @@ Qed.
 (* the colours of diff, pinned to the documented table (GREEN only in self, RED only in other, BLUE different) *)
 Lemma diff_colours : DIFF_ONLY_SELF = 65280 /\ DIFF_ONLY_OTHER = 16711680 /\ DIFF_DIFFERENT = 255.
 Proof. repeat split; reflexivity. Qed.
+
+(* ===== Part 6: a reference machine without array, for ARBITRARY histories (flag changes and set_pixel included) ===== *)
+Record rstate := RS { r_ao : bool; r_ab : bool; r_evs : list (point * option Z) }.
+
+(* content of a cell = what the last event at it says *)
+Definition content (evs : list (point * option Z)) (p : point) : option Z :=
+  match last_event p evs with Some v => v | None => None end.
+
+Fixpoint ref_pixels (s : rstate) (ws : list (point * Z)) : result rstate :=
+  match ws with
+  | [] => Ok s
+  | (p, c) :: t =>
+      if negb (in_displayb p) then (if r_ab s then ref_pixels s t else Panic POutOfBounds)
+      else if negb (r_ao s) && is_some (content (r_evs s) p) then Panic POverdraw
+      else ref_pixels (RS (r_ao s) (r_ab s) (r_evs s ++ [(p, Some c)])) t
+  end.
+
+Definition ref_op (s : rstate) (o : op) : result rstate :=
+  match o with
+  | OpSetPixel p v => if in_displayb p then Ok (RS (r_ao s) (r_ab s) (r_evs s ++ [(p, v)])) else Panic PSetPixel
+  | OpSetAllowOverdraw b => Ok (RS b (r_ab s) (r_evs s))
+  | OpSetAllowOob b => Ok (RS (r_ao s) b (r_evs s))
+  | _ => ref_pixels s (requested o)
+  end.
+
+Definition ref_run (s : rstate) (ops : list op) : result rstate :=
+  fold_left (fun r o => bind r (fun s' => ref_op s' o)) ops (Ok s).
+
+Definition sim (d : display) (s : rstate) : Prop :=
+  allow_overdraw d = r_ao s /\ allow_oob d = r_ab s /\ forall p, in_display p -> gp d p = content (r_evs s) p.
+
+Definition agree {A B} (Rel : A -> B -> Prop) (x : result A) (y : result B) : Prop :=
+  match x, y with
+  | Ok a, Ok b => Rel a b
+  | Panic k, Panic k' => k = k'
+  | _, _ => False
+  end.
+
+Lemma content_snoc evs q v p : content (evs ++ [(q, v)]) p = if point_eqb p q then v else content evs p.
+Proof.
+  unfold content. rewrite last_event_app. cbn [last_event]. destruct (point_eqb p q); reflexivity.
+Qed.
+
+Lemma sim_pixels d s ws : sim d s -> agree sim (draw_iter d ws) (ref_pixels s ws).
+Proof.
+  revert d s; induction ws as [|[q c] t IH]; intros d s Hs; cbn [draw_iter ref_pixels].
+  - exact Hs.
+  - destruct Hs as [Ha [Hb Hg]]. rewrite draw_pixel_spec. destruct (in_displayb q) eqn:Eq; cbn [negb].
+    + pose proof (proj1 (in_displayb_spec q) Eq) as Hq. rewrite (Hg q Hq), Ha.
+      destruct (negb (r_ao s) && is_some (content (r_evs s) q)); cbn [bind]; [reflexivity|].
+      apply IH. split; [exact Ha|]. split; [exact Hb|]. cbn [r_evs]. intros p Hp.
+      rewrite gp_put, content_snoc by assumption. destruct (point_eqb p q); [reflexivity|apply Hg, Hp].
+    + rewrite Hb. destruct (r_ab s) eqn:Eb; cbn [bind]; [|reflexivity]. apply IH. split; [exact Ha|]. split; [congruence|exact Hg].
+Qed.
+
+Lemma ref_op_draw s o : is_draw o = true -> ref_op s o = ref_pixels s (requested o).
+Proof. destruct o; cbn [is_draw ref_op]; intros H; try discriminate H; reflexivity. Qed.
+
+Lemma sim_op d s o : sim d s -> agree sim (apply_op d o) (ref_op s o).
+Proof.
+  intros Hs. destruct (is_draw o) eqn:Ed.
+  - rewrite requested_draw, ref_op_draw by assumption. apply sim_pixels, Hs.
+  - destruct Hs as [Ha [Hb Hg]]. destruct o; try discriminate; cbn [apply_op ref_op].
+    + rewrite set_pixel_spec. destruct (in_displayb p) eqn:Ep; [|reflexivity].
+      split; [exact Ha|]. split; [exact Hb|]. cbn [r_evs]. intros q Hq.
+      rewrite gp_put, content_snoc by (apply in_displayb_spec, Ep). destruct (point_eqb q p); [reflexivity|apply Hg, Hq].
+    + split; [reflexivity|]. split; [exact Hb|exact Hg].
+    + split; [exact Ha|]. split; [reflexivity|exact Hg].
+Qed.
+
+Lemma ref_run_cons s o ops : ref_run s (o :: ops) = bind (ref_op s o) (fun s' => ref_run s' ops).
+Proof.
+  unfold ref_run. cbn [fold_left bind]. destruct (ref_op s o); cbn [bind]; [reflexivity|apply fold_panic].
+Qed.
+
+Lemma sim_run d s ops : sim d s -> agree sim (run d ops) (ref_run s ops).
+Proof.
+  revert d s; induction ops as [|o ops IH]; intros d s Hs.
+  - exact Hs.
+  - rewrite run_cons, ref_run_cons. pose proof (sim_op d s o Hs) as H.
+    destruct (apply_op d o); destruct (ref_op s o); cbn [agree bind] in *; try contradiction; [apply IH, H|exact H].
+Qed.
+
+(* C20, both halves at once for ANY history: the array implementation and the array-free reference machine panic at the
+   same operation with the same kind, or both finish and get_pixel reads the reference content *)
+Theorem mock_refines_reference ops :
+  agree (fun d s => allow_overdraw d = r_ao s /\ allow_oob d = r_ab s /\
+                    forall p, get_pixel d p = Ok (if in_displayb p then content (r_evs s) p else None))
+        (run new_display ops) (ref_run (RS false false []) ops).
+Proof.
+  assert (sim new_display (RS false false [])) as H0.
+  { split; [reflexivity|]. split; [reflexivity|]. intros p _. rewrite gp_new. reflexivity. }
+  pose proof (sim_run _ _ ops H0) as H.
+  destruct (run new_display ops) as [d|k]; destruct (ref_run _ ops) as [s|k']; cbn [agree] in *; try contradiction; [|exact H].
+  destruct H as [Ha [Hb Hg]]. split; [exact Ha|]. split; [exact Hb|]. intros p. rewrite get_pixel_gp. f_equal.
+  destruct (in_displayb p) eqn:E; [apply Hg, in_displayb_spec, E|apply gp_outside, in_displayb_false, E].
+Qed.
+
+Corollary mock_panic_iff_any ops k :
+  run new_display ops = Panic k <-> ref_run (RS false false []) ops = Panic k.
+Proof.
+  pose proof (mock_refines_reference ops) as H.
+  destruct (run new_display ops); destruct (ref_run _ ops); cbn [agree] in H; try contradiction.
+  - split; discriminate.
+  - subst. split; intros E; inversion E; reflexivity.
+Qed.
